@@ -540,9 +540,3 @@ Definition handle (q : quirks) (o : oracle) (cfg : config) (r : request) (now jn
     if match c_basic cfg with Some users => negb (basic_ok q o users r) | None => false end
     then Reject 401 5 else Pass
   end.
-
-(** * Reference signer (what a correct client does), used by the completeness theorem *)
-Definition sign_params_header (ftime_ns : Z * string * string) (keyid : string) (scopes : list string)
-    (signed tag : string) : sparams :=
-  {| p_presign := false; p_keyid := keyid; p_scopes := scopes; p_signed := signed; p_tag := tag;
-     p_time := ftime_ns; p_expire := 0%Z |}.
